@@ -58,6 +58,12 @@ static bool vx_ec_bool(struct error_code *ec) { return ec->value != pika_error_s
 /* ---- the mutex object ----------------------------------------------------------------------------------- */
 struct cv { int unused; };
 struct pmutex { struct vx_mutex mtx_; vx_tid owner_id_; struct cv cond_; };
+/* owner_id_ is read and written only inside a critical section of the internal lock (lifted text: every access goes through here) */
+static vx_tid *vx_owner(struct pmutex *self)
+{
+  VX_ASSERT(self->mtx_.held, "owner_id_ is accessed only with the mutex's internal lock held (else ownership is decided on a stale value / overwritten under another task's critical section)");
+  return &self->owner_id_;
+}
 
 static struct pmutex *vx_self;
 static vx_tid g_self;             /* id of the calling task (!= invalid) */
